@@ -172,8 +172,8 @@ class Inliner:
         except Exception:  # noqa: BLE001
             return None
         funcs = tg.funcs()
-        if len(funcs) != 1 or tg.classes():
-            return None
+        if len(funcs) != 1 or tg.classes() or not getattr(tg, "precise", True):
+            return None  # (a callee found only by method name over the class hierarchy is not expanded)
         h = funcs[0]
         if h in stack or h.module is not fi.module or h.name in self.keep:
             return None
@@ -415,7 +415,29 @@ class Inliner:
                         new.orelse = repl(st.orelse, in_loop_tail_ok and last)
                         out.append(new)
                         continue
-                    raise _NotInlinable("yield inside try / with / expression")
+                    if isinstance(st, ast.Try) and not any(isinstance(x, ast.Yield) for o in st.finalbody for x in ast.walk(o)):
+                        # the else clause and the handlers are not guarded by this try's handlers: the loop body may go
+                        # there; into the guarded body only when it is the bare re-yield of a `yield from`
+                        trivial = len(loop.body) == 1 and isinstance(loop.body[0], ast.Expr) and isinstance(loop.body[0].value, ast.Yield)
+                        if any(isinstance(x, ast.Yield) for o in st.body for x in ast.walk(o)) and not trivial:
+                            raise _NotInlinable("yield inside a guarded try body")
+                        new = copy.copy(st)
+                        new.body = repl(st.body, False) if any(isinstance(x, ast.Yield) for o in st.body for x in ast.walk(o)) else [ren.visit(copy.deepcopy(o)) for o in st.body]
+                        new.orelse = repl(st.orelse, in_loop_tail_ok and last) if any(isinstance(x, ast.Yield) for o in st.orelse for x in ast.walk(o)) else [ren.visit(copy.deepcopy(o)) for o in st.orelse]
+                        hs_ = []
+                        for h_ in st.handlers:
+                            h2 = copy.copy(h_)
+                            if h2.type is not None:
+                                h2.type = ren.visit(copy.deepcopy(h2.type))
+                            if h2.name and h2.name in locs:
+                                h2.name = prefix + h2.name
+                            h2.body = repl(h_.body, in_loop_tail_ok and last) if any(isinstance(x, ast.Yield) for o in h_.body for x in ast.walk(o)) else [ren.visit(copy.deepcopy(o)) for o in h_.body]
+                            hs_.append(h2)
+                        new.handlers = hs_
+                        new.finalbody = [ren.visit(copy.deepcopy(o)) for o in st.finalbody]
+                        out.append(new)
+                        continue
+                    raise _NotInlinable("yield inside with / expression")
                 out.append(ren.visit(copy.deepcopy(st)))
             return out
 
@@ -484,6 +506,23 @@ class Inliner:
                 out.append(s)
                 continue
             s = copy.copy(s)
+            if isinstance(s, ast.Expr) and isinstance(s.value, ast.YieldFrom) and isinstance(s.value.value, ast.Call):
+                # `yield from helper(args)`: the helper generator's body takes the place of the statement (its yields
+                # stay yields of the delegating generator)
+                hg = self._target(fi, s.value.value, stack, allow_generator=True)
+                if hg is not None:
+                    dummy = ast.For(target=ast.Name(id="_yf_item", ctx=ast.Store()), iter=s.value.value, body=[ast.Expr(value=ast.Yield(value=ast.Name(id="_yf_item", ctx=ast.Load())))], orelse=[])
+                    ast.copy_location(dummy, s)
+                    ast.fix_missing_locations(dummy)
+                    try:
+                        expanded_loop = self._expand_generator_loop(fi, dummy, hg)
+                    except _NotInlinable:
+                        expanded_loop = None
+                    if expanded_loop is not None:
+                        # `_yf_item = v; yield _yf_item` -> `yield v`
+                        cleaned = _fold_yield_temp(expanded_loop)
+                        out.extend(self._block(fi, cleaned, stack + [hg], depth))
+                        continue
             if isinstance(s, ast.For) and isinstance(s.iter, ast.Call):
                 hg = self._target(fi, s.iter, stack, allow_generator=True)
                 if hg is not None:
@@ -519,6 +558,43 @@ class Inliner:
             out.extend(prelude_all)
             out.append(s)
         return out
+
+
+def _fold_yield_temp(stmts: list) -> list:
+    """`_yf_item = v` directly followed by `yield _yf_item`  ->  `yield v` (recursively through compound statements)"""
+    out = []
+    i = 0
+    while i < len(stmts):
+        st = stmts[i]
+        nx = stmts[i + 1] if i + 1 < len(stmts) else None
+        if (
+            isinstance(st, ast.Assign)
+            and len(st.targets) == 1
+            and isinstance(st.targets[0], ast.Name)
+            and st.targets[0].id == "_yf_item"
+            and isinstance(nx, ast.Expr)
+            and isinstance(nx.value, ast.Yield)
+            and isinstance(nx.value.value, ast.Name)
+            and nx.value.value.id == "_yf_item"
+        ):
+            out.append(ast.copy_location(ast.Expr(value=ast.Yield(value=st.value)), st))
+            i += 2
+            continue
+        if not isinstance(st, (ast.FunctionDef, ast.AsyncFunctionDef, ast.ClassDef)):
+            st = copy.copy(st)
+            for f in ("body", "orelse", "finalbody"):
+                if isinstance(getattr(st, f, None), list):
+                    setattr(st, f, _fold_yield_temp(getattr(st, f)))
+            if isinstance(st, ast.Try):
+                hs = []
+                for h in st.handlers:
+                    h = copy.copy(h)
+                    h.body = _fold_yield_temp(h.body)
+                    hs.append(h)
+                st.handlers = hs
+        out.append(st)
+        i += 1
+    return out
 
 
 def _subst_in(stmt: ast.stmt, old: ast.AST, new: ast.AST) -> ast.stmt:
